@@ -1331,6 +1331,27 @@ class Interp:
             return AIter(fr.yields)
         return None
 
+    def _sortable_objects(self, items):
+        """Objects with concrete state and a real (not summarised) __lt__: they can be sorted the way Python would."""
+        if not items:
+            return False
+        for x in items:
+            if not (isinstance(x, AObj) and x.cls is not None):
+                return False
+            m = self.repo.find_method(x.cls, "__lt__")
+            if m is None or "%s.%s" % (m.module.name, m.qualname) in self.summaries or _has_abs(list(x.attrs.values())):
+                return False
+        return True
+
+    def _sorted_objects(self, items, node):
+        out = []
+        for x in items:  # stable insertion by '<'
+            k = len(out)
+            while k > 0 and self.truth(self.call_method(x, "__lt__", [out[k - 1]], {}, node), node):
+                k -= 1
+            out.insert(k, x)
+        return out
+
     def call_method(self, recv, name, args, kwargs, node=None):
         recv = _unlin(recv)
         if hasattr(recv, "a_method"):
@@ -1403,6 +1424,11 @@ class Interp:
                 return None
             if name == "sort" and not _has_abs(recv):
                 recv.sort(**kwargs) if not kwargs else recv.sort(); self.sorted_ids.add(id(recv)); return None
+            if name == "sort" and not kwargs and self._sortable_objects(recv):
+                recv[:] = self._sorted_objects(recv, node)
+                self.events.append(("sort", recv, None, node))
+                self.sorted_ids.add(id(recv))
+                return None
             if name == "sort":
                 if kwargs.get("key") is not None:
                     keys = [self.call(kwargs["key"], [x], {}, node) for x in recv]
@@ -1874,6 +1900,11 @@ class Interp:
             raise CannotDecide("super() form")
         if name == "sorted" and isinstance(args[0], (list, tuple)) and not _has_abs(args[0]) and not kwargs:
             return sorted(args[0])
+        if name == "sorted" and isinstance(args[0], (list, tuple)) and not kwargs and self._sortable_objects(list(args[0])):
+            r = self._sorted_objects(list(args[0]), node)
+            self.events.append(("sort", r, None, node))
+            self.sorted_ids.add(id(r))
+            return r
         if name == "sorted" and isinstance(args[0], (list, tuple)):
             r = list(args[0])
             self.events.append(("sort", r, None, node))
